@@ -4,6 +4,8 @@ package c19
 
 import (
 	"fmt"
+	"os"
+	"strings"
 	"sync"
 	"time"
 
@@ -55,8 +57,30 @@ type link struct {
 	SDials bool
 }
 
-// newSock opens a socket, closed at case end.
-func newSock(c *mon.Case, proto string) mangos.Socket { return hx.MustSock(c, proto) }
+// newSock opens a socket, closed at case end.  The Close runs under the stuck
+// detector: a socket the case has shown to be wedged (lock left held) must not
+// hang the runner's cleanup; its Close goroutine is abandoned, parked.
+func newSock(c *mon.Case, proto string) mangos.Socket {
+	f, ok := hx.SockCtors[proto]
+	if !ok {
+		panic("unknown protocol " + proto)
+	}
+	s, err := f()
+	if err != nil {
+		panic(err)
+	}
+	c.Cleanup(func() { safeClose(c, proto, s) })
+	return s
+}
+
+func safeClose(c *mon.Case, proto string, s mangos.Socket) {
+	call := mon.Go("Close", func() (interface{}, error) { return nil, s.Close() })
+	r := call.Wait(mon.AwaitOpts{Watchdog: 30 * time.Second})
+	if r.V != mon.Done {
+		c.Count("sockets_abandoned_close_stuck", 1)
+		c.Logf("cleanup: %s Close did not return (%v) — abandoned", proto, r.V)
+	}
+}
 
 // connect builds S (proto) and P (peer protocol) and connects them over tr.
 // S listens unless sDials.  Redials are pushed out of the case's lifetime (1h)
@@ -76,12 +100,18 @@ func connect(c *mon.Case, proto, peerProto, tr string, sDials bool) *link {
 		return nil
 	}
 	l, d, err := hx.Connect(srv, cli, tr)
+	for try := 0; err != nil && try < 4 && portPressure(err); try++ {
+		// the machine ran out of ephemeral ports (TIME_WAIT from everybody's
+		// connections): give it a moment — pacing, the outcome stays inconclusive
+		mon.Sleep(400 * time.Millisecond)
+		l, d, err = hx.Connect(srv, cli, tr)
+	}
 	if err != nil {
 		c.Inconclusive("harness: connect %s<->%s over %s: %v", proto, peerProto, tr, err)
 		return nil
 	}
 	lk.L, lk.D = l, d
-	ok := c.AwaitOrViolate("harness:attach-stuck", fmt.Sprintf("%s<->%s over %s attaching on both sides", proto, peerProto, tr),
+	ok := awaitOrInconcl(c, fmt.Sprintf("%s<->%s over %s attaching on both sides", proto, peerProto, tr),
 		func() bool { return lk.SW.nAttached() >= 1 && lk.PW.nAttached() >= 1 }, mon.AwaitOpts{MaxTimer: 200 * time.Millisecond})
 	if !ok {
 		return nil
@@ -89,8 +119,20 @@ func connect(c *mon.Case, proto, peerProto, tr string, sDials bool) *link {
 	return lk
 }
 
+func portPressure(err error) bool {
+	s := err.Error()
+	return strings.Contains(s, "address already in use") || strings.Contains(s, "cannot assign requested address")
+}
+
 // rawPeerOf: a raw peer that can push traffic at / echo traffic of S freely.
 var rawPeerOf = map[string]string{
 	"rep": "xreq", "xrep": "xreq", "respondent": "xsurveyor", "xrespondent": "xsurveyor",
 	"req": "xrep", "xreq": "xrep", "surveyor": "xrespondent", "xsurveyor": "xrespondent",
+}
+
+// dbg prints timing traces when C19_DEBUG is set (development aid only).
+func dbg(format string, a ...interface{}) {
+	if os.Getenv("C19_DEBUG") != "" {
+		fmt.Fprintf(os.Stderr, "%9.3fms "+format+"\n", append([]interface{}{float64(mon.Now().Microseconds()) / 1000}, a...)...)
+	}
 }
